@@ -13,6 +13,7 @@ CONSTANTS
  DevF13 = FALSE
  DevVerKey = FALSE
  DevDangEnd = FALSE
+ DevRepBeforePattern = FALSE
  DevLastOfName = FALSE
  DevNoAtomResname = TRUE
  DevOrderedPairs = FALSE
